@@ -8,7 +8,7 @@ last; (5) the downlink stream written by all threads decodes strictly and carrie
 import hashlib
 from collections import Counter
 
-from .. import cfggen, fold, gen, model, runner, spec_lowlevel as S, statemodel
+from .. import cfggen, fold, gen, model, runner, spec_lowlevel as S, statemodel, sweep
 from ..model import C
 from ..scen import Scn, call, up, s as S_
 from .C05 import seq_scan
@@ -19,8 +19,7 @@ DATALESS = ['bidib_send_sys_enable', 'bidib_send_sys_disable']
 
 RECV_KINDS = ('segments', 'boosters', 'track_outputs', 'points_board', 'signals_board', 'peripherals', 'reversers')
 
-def gen_scenario(ctx, k, flavour):
-    rng = ctx.sub_rng('c10', k)
+def make_cfg(rng, tag):
     cfg = cfggen.gen_config(rng, nboards=rng.randrange(1, 4), with_initial=False)
     # a train with several functions per group (read-modify-write commands), a track output and some segments
     cfg['trains'] = [t for t in cfg['trains'] if False]
@@ -32,9 +31,68 @@ def gen_scenario(ctx, k, flavour):
     b0['uid'] = bytes([b0['uid'][0] | 0x12]) + b0['uid'][1:]
     if not b0.get('segments'):
         b0['segments'] = [{'id': f'cs{i}', 'address': i, 'length': '1cm'} for i in range(6)]
-    d = cfggen.write_config(cfg, cfg_dir(f'c10_{k}'))
+    d = cfggen.write_config(cfg, cfg_dir(tag))
     nodes = cfggen.assign_tree(rng, cfg, absent_prob=0.0, unknown=0)
     m = statemodel.Model(cfg, nodes)
+    return cfg, d, nodes, m, b0
+
+def group_of(bit):
+    return 0 if bit <= 4 else 1 if bit <= 8 else 2 if bit <= 12 else 3 if bit <= 20 else 4
+
+def gen_directed(ctx, k):
+    """Directed preemption instead of luck. Three kinds of cases in one session:
+    rmw   - thread A is paused at the j-th scheduling point of a train-function command, thread B then commands ANOTHER function of the same
+            train (same or different function group) completely; both functions must end as commanded (one writer each).
+    recv  - the receiver is paused at the j-th scheduling point of its processing of one feedback message; the main thread calls getters.
+    queue - a reader is paused inside bidib_read_message while another reader drains; every queued message is returned exactly once."""
+    rng = ctx.sub_rng('c10d', k)
+    cfg, d, nodes, m, b0 = make_cfg(rng, f'c10d_{k}')
+    sc = Scn(seed=ctx.seed * 127 + k, perturb=0, watchdog=300000)
+    sc.add(*cfggen.bus_lines(cfg, nodes), 'bus brackets 1', f'start {d} 0', 'quiesce', 'mark conc_begin')
+    tos = [b for b in cfg['boards'] if cfggen.is_track_output(b) and m.connected(b['id'])]
+    to = tos[0]['id']
+    fn = bool(k % 2)
+    kmax = 90 if fn else 22
+    segs = [s_['id'] for b in cfg['boards'] for s_ in (b.get('segments') or [])]
+    last_set = {}
+    npong = 0
+    idx = 0
+    for i in range(rng.randrange(50, 90)):
+        j = 1 + (i * 5 + k * 3) % kmax
+        kind = rng.choice(['rmw', 'rmw', 'recv', 'recv', 'queue'])
+        if kind == 'rmw':
+            t = rng.choice(cfg['trains'])
+            pa, pb = rng.sample(t['peripherals'], 2)
+            if rng.random() < 0.7:
+                same = [p for p in t['peripherals'] if p is not pa and group_of(p['bit']) == group_of(pa['bit'])]
+                if same:
+                    pb = rng.choice(same)
+            va, vb = rng.randrange(2), rng.randrange(2)
+            sweep.add_two_thread_case(sc, idx, [call('bidib_set_train_peripheral', S_(t['id']), S_(pa['id']), va, S_(to))],
+                                      [call('bidib_set_train_peripheral', S_(t['id']), S_(pb['id']), vb, S_(to))], j, fn, after=('flush', 'quiesce'))
+            last_set[(t['id'], pa['id'])] = va
+            last_set[(t['id'], pb['id'])] = vb
+        elif kind == 'recv':
+            ad, ty, data = gen_feedback(rng, m, cfg, nodes)
+            if ty in (C('MSG_NODE_LOST'), C('MSG_NODE_NEW'), C('MSG_CS_DRIVE_MANUAL')):
+                continue
+            lines = [rng.choice(['get state x', 'get state x', f'get segment {rng.choice(segs)}' if segs else 'get state x', f'get booster {b0["id"]}'])
+                     for _ in range(rng.randrange(1, 3))]
+            sweep.add_receiver_case(sc, idx, [up(model.build_msg(ad, 0, ty, data))], lines, j, fn)
+        else:
+            n = rng.randrange(2, 5)
+            for _ in range(n):
+                sc.add(up(model.build_msg((0, 0, 0), 0, C('MSG_SYS_PONG'), bytes([npong & 0xFF, npong >> 8, 0x5C]))))
+                npong += 1
+            sc.add('quiesce')
+            sweep.add_two_thread_case(sc, idx, ['readm'], ['readm'] * n, j, fn, after=('readm',))
+        idx += 1
+    sc.add('flush', 'quiesce', 'flush', 'quiesce', 'snap end', 'drain', 'stop')
+    return sc.text(), cfg, nodes, last_set, npong, 2
+
+def gen_scenario(ctx, k, flavour):
+    rng = ctx.sub_rng('c10', k)
+    cfg, d, nodes, m, b0 = make_cfg(rng, f'c10_{k}')
     sc = Scn(seed=ctx.seed * 113 + k, perturb=rng.choice([0, 100, 300, 600]), watchdog=300000)
     sc.add(*cfggen.bus_lines(cfg, nodes), 'bus brackets 1', f'start {d} {rng.choice([1, 2, 5])}', 'quiesce', 'mark conc_begin')
     nt = rng.choice([2, 3, 4, 8, 16])
@@ -235,9 +293,13 @@ def run(ctx):
     ctx.assumptions = ['TSan suppresses only the four volatile lifecycle flags (tsan.supp)', 'glib is not instrumented: races inside containers are covered by the contract monitor only',
                        'bidib_send_sys_reset is excluded (README)']
     jobs = []
-    for k in range(ctx.n(36, 1500)):
+    import os
+    only = os.environ.get('VERIF_ONLY', '')
+    for k in range(ctx.n(36, 1500) if only != 'directed' else 0):
         fl = ('tsan', 'asan', 'mon')[k % 3]
         jobs.append((fl,) + gen_scenario(ctx, k, fl))
+    for k in range(ctx.n(30, 1200) if only != 'stress' else 0):
+        jobs.append((('mon', 'asan', 'tsan')[k % 3],) + gen_directed(ctx, k) + ('directed',))
     for fl in ('tsan', 'asan', 'mon'):
         js = [j for j in jobs if j[0] == fl]
         res = runner.run_many(fl, [(i, j[1]) for i, j in enumerate(js)], timeout=900)
@@ -245,5 +307,7 @@ def run(ctx):
             meta = {'digest': hashlib.sha1(j[1].encode()).hexdigest()[:12], 'flavour': fl, 'threads': j[6]}
             evaluate(ctx, r, j[2], j[3], j[4], j[5], j[6], meta)
             ctx.count('runs_' + fl)
+            if len(j) > 7:
+                sweep.pause_stats(ctx, r.events, 'directed')
     ctx.sample({'threads': jobs[0][6], 'worker_lines': [l for l in jobs[0][1].split('\n') if l.startswith('t 1 ')][:10]})
     return ctx.finish(min_eval=12, min_nontrivial=8)
